@@ -145,6 +145,8 @@ def one_case(sess, r, rng, ci, canon, spelled, uri, transport, repl, host, port,
     res = sess.resolved[nres:]
     used = 'http' if http else ('tcp' if (tcp or res) else ('file' if fo else 'none'))
     r.observe((canon, api, used, embedded is not None, explicit is not None, host[0] == '[', port is None, path is None, query is None, frag is None))
+    if ci % 37 == 1:
+        r.sample(dict(uri=uri, explicit_credentials=explicit, api=api, transport_used=used, url_at_http_library=[h['url'] for h in http][:1], resolved=res[:1], opened=fo[:1], set_endpoint_rc=setrc))
     r.count('transport_%s' % used)
     kind = 'ext' if 'ext' in api else 'aggr'
     # refusal rules of the asynchronous service
